@@ -48,6 +48,10 @@ fn send_new_compilation_request(
     optimized_build: bool,
     sync_workspace: Arc<SyncWorkspace>,
 ) {
+    // A request without a version (open, save) is for the document as of its latest change. Without
+    // that version the caches would be taken to be up to date, and a change whose compilation gets
+    // cancelled or dropped in favour of this request would never be compiled.
+    let version = version.or_else(|| state.documents.client_version(uri));
     let file_versions = file_versions(&state.documents, uri, version.map(|v| v as u64));
 
     if state.is_compiling.load(Ordering::SeqCst) {
@@ -98,6 +102,9 @@ pub async fn handle_did_change_text_document(
         .documents
         .write_changes_to_file(&uri, &params.content_changes)
         .await?;
+    state
+        .documents
+        .set_client_version(&uri, params.text_document.version);
 
     send_new_compilation_request(
         state,
